@@ -8,7 +8,7 @@ ASSUMPTIONS = ['regex finditer contract: per pattern the matches are non-empty, 
                'the negative-term pattern is $-anchored (checked on the real patterns of every culture: O12.0) and lies outside number matches',
                'bounded source length and number of matches/results (see bounds per obligation)']
 OUTSIDE = ['interplay of the real sub-extractors on one sentence (which intervals actually arise)', 'CJK-specific extractors',
-           'NumberWithUnitExtractor._select_candidates, merged number/unit grouping (not built)']
+           'merged number/unit grouping (BaseMergedNumberExtractor / BaseMergedUnitExtractor) is not built']
 S = 'harness.spans:'
 
 
@@ -50,6 +50,13 @@ def obligations(tier):
         Ob('O12.4-b_add-kf', 'sx', S + 'h_b_add_kf', slices=[{'src': 'abcdef'}], timeout=t, finding='F3b',
            descr='region F3b: a later result lies inside or partially overlaps an earlier one'),
         Ob('O12.4-witness', 'fn', 'harness.witness:api_witness', slices=[{'w': 'F3b'}], timeout=t, finding='F3b', descr='API witness of F3b'),
+        Ob('O12.5-select-candidates', 'sx', S + 'h_select_candidates', timeout=max(t, 300),
+           descr='NumberWithUnitExtractor._select_candidates: prefix/suffix currency candidates that share a unit are resolved to pairwise disjoint entities',
+           bounds='2..3 candidates (one number each, numbers distinct, units possibly shared) anywhere in a text of length 10, prefix/suffix flags symbolic',
+           encodes=['recognizers_number_with_unit.number_with_unit.extractors:NumberWithUnitExtractor._select_candidates']),
+        Ob('O12.5-unit-extract', 'sx', S + 'h_unit_extract', twin=S + 't_unit_extract', slices=[{'usrc': 'ab cd ef'}] + ([{'usrc': 'ab  cd ef gh'}] if tier == 'thorough' else []), timeout=t,
+           descr='NumberWithUnitExtractor.extract with one number, <=1 prefix and <=1 suffix unit match: at most the expected entity, never two overlapping ones',
+           bounds='source of 8 chars (thorough 12), all positions symbolic', encodes=['recognizers_number_with_unit.number_with_unit.extractors:NumberWithUnitExtractor.extract']),
         Ob('O12.0-neg-anchor', 'fn', 'harness.tables:audit_negative_terms', timeout=t,
            descr='audit: the negative-number-term pattern of every culture extractor is anchored at the end of the prefix (premise of the sweep stub)'),
     ]
